@@ -195,7 +195,7 @@ fn oracle(chunks: &[Vec<u8>], data: &[u8], min: usize, max: usize) -> Option<&'s
 pub fn exec(t: &[&str]) -> String {
     let t: Vec<String> = t.iter().map(|s| (*s).to_string()).collect();
     guarded(move || match t.iter().map(String::as_str).collect::<Vec<_>>().as_slice() {
-        ["rabin", poly, avg, min, max, seed, data] => {
+        ["rabin" | "litwin", poly, avg, min, max, seed, data] => {
             let (Ok(poly), Ok(avg), Ok(min), Ok(max), Ok(seed), Some(data)) = (
                 u64::from_str_radix(poly, 16),
                 avg.parse::<usize>(),
